@@ -143,7 +143,7 @@ func inlineNewHelpers(repo string) inlineResult {
 	uniq := 0
 	for _, root := range moduleRoots {
 		dir := repo + "/" + root
-		for round := 0; round < 3; round++ {
+		for round := 0; round < 6; round++ {
 			pkgs, err := loadSyntax(dir, res.Overlay)
 			if err != nil {
 				res.Reason = "normalised copy does not load: " + err.Error()
@@ -199,6 +199,13 @@ type candidate struct {
 	decl *ast.FuncDecl
 	obj  *types.Func
 	key  string
+	// lockedGetter: the body is `x.Lock(); defer x.Unlock(); …pure statements…; return <pure>`: the deferred unlock is
+	// replaced by an explicit unlock in front of every exit (nothing in between can panic or call out)
+	deferStmt  *ast.DeferStmt
+	unlockText string
+	// tailOnly: the body contains other defer statements: it may only be inlined where the call is the last thing its caller
+	// does (the deferred calls then still run right after the body, at the caller's exit)
+	tailOnly bool
 }
 
 func inlineFile(p *packages.Package, f *ast.File, src []byte, uniq *int, counts map[string]int) ([]byte, int) {
@@ -224,10 +231,59 @@ func inlineFile(p *packages.Package, f *ast.File, src []byte, uniq *int, counts 
 			continue
 		}
 		bad := false
+		hasOtherDefer := false
+		var lockedDefer *ast.DeferStmt
+		if len(fd.Body.List) >= 3 {
+			if es, ok := fd.Body.List[0].(*ast.ExprStmt); ok {
+				if ds, ok := fd.Body.List[1].(*ast.DeferStmt); ok {
+					lc, isCall := es.X.(*ast.CallExpr)
+					if isCall {
+						ls, ok1 := lc.Fun.(*ast.SelectorExpr)
+						us, ok2 := ds.Call.Fun.(*ast.SelectorExpr)
+						if ok1 && ok2 && ((ls.Sel.Name == "Lock" && us.Sel.Name == "Unlock") || (ls.Sel.Name == "RLock" && us.Sel.Name == "RUnlock")) &&
+							types.ExprString(ls.X) == types.ExprString(us.X) && len(lc.Args) == 0 && len(ds.Call.Args) == 0 {
+							// the rest must be call-free apart from builtins / conversions / getters
+							pure := true
+							for _, st := range fd.Body.List[2:] {
+								ast.Inspect(st, func(n ast.Node) bool {
+									switch y := n.(type) {
+									case *ast.CallExpr:
+										switch f := y.Fun.(type) {
+										case *ast.Ident:
+											if f.Name != "len" && f.Name != "cap" {
+												if tv, ok := p.TypesInfo.Types[y.Fun]; !ok || !tv.IsType() {
+													pure = false
+												}
+											}
+										case *ast.SelectorExpr:
+											if !strings.HasPrefix(f.Sel.Name, "Get") {
+												if tv, ok := p.TypesInfo.Types[y.Fun]; !ok || !tv.IsType() {
+													pure = false
+												}
+											}
+										default:
+											pure = false
+										}
+									case *ast.DeferStmt, *ast.GoStmt, *ast.FuncLit:
+										pure = false
+									}
+									return true
+								})
+							}
+							if pure {
+								lockedDefer = ds
+							}
+						}
+					}
+				}
+			}
+		}
 		ast.Inspect(fd.Body, func(n ast.Node) bool {
 			switch x := n.(type) {
 			case *ast.DeferStmt:
-				bad = true
+				if x != lockedDefer {
+					hasOtherDefer = true
+				}
 			case *ast.BranchStmt:
 				if x.Tok == token.GOTO {
 					bad = true
@@ -246,7 +302,19 @@ func inlineFile(p *packages.Package, f *ast.File, src []byte, uniq *int, counts 
 		if bad {
 			continue
 		}
-		cands[obj] = &candidate{decl: fd, obj: obj, key: key}
+		cd := &candidate{decl: fd, obj: obj, key: key, tailOnly: hasOtherDefer}
+		if hasOtherDefer {
+			// named results could be modified by the deferred calls after the return values are set: keep it simple
+			if fd.Type.Results != nil && len(fd.Type.Results.List) > 0 {
+				continue
+			}
+			lockedDefer = nil
+		}
+		if lockedDefer != nil {
+			cd.deferStmt = lockedDefer
+			cd.unlockText = types.ExprString(lockedDefer.Call)
+		}
+		cands[obj] = cd
 	}
 	if len(cands) == 0 {
 		return src, 0
@@ -277,15 +345,20 @@ func inlineFile(p *packages.Package, f *ast.File, src []byte, uniq *int, counts 
 	n := 0
 	remaining := map[*types.Func]int{}
 	here := map[*types.Func]int{}
+	tailStmts := map[ast.Stmt]bool{}
 	var visitStmts func(list []ast.Stmt)
+	var lowerStmt func(st ast.Stmt) bool
 	handle := func(st ast.Stmt) bool {
 		call, form := inlinableCall(st)
-		if call == nil {
-			return false
+		if call == nil || cands[calleeFunc(p.TypesInfo, call)] == nil {
+			return lowerStmt(st)
 		}
 		callee := calleeFunc(p.TypesInfo, call)
 		c := cands[callee]
 		if c == nil || usedAsValue[callee] || call.Ellipsis.IsValid() {
+			return false
+		}
+		if c.tailOnly && !(tailStmts[st] && form == "expr") {
 			return false
 		}
 		// not inside the helper itself, and not a call nested in another candidate's body that is itself about to vanish is fine
@@ -300,6 +373,23 @@ func inlineFile(p *packages.Package, f *ast.File, src []byte, uniq *int, counts 
 		n++
 		return true
 	}
+	// helper calls in expression position (conditions, operands, arguments): hoisted in evaluation order
+	lowerStmt = func(st ast.Stmt) bool {
+		lw := &lowerer{p: p, src: src, cands: cands, usedAsValue: usedAsValue, uniq: uniq, resume: fset.Position(st.Pos()).Line}
+		text, ok := lw.stmt(st)
+		if !ok || lw.n == 0 {
+			return false
+		}
+		endLine := fset.Position(st.End()).Line
+		file := fset.Position(st.Pos()).Filename
+		edits = append(edits, edit{off(st.Pos()), off(st.End()), text + fmt.Sprintf("\n//line %s:%d\n", file, endLine)})
+		for fn, k := range lw.hit {
+			counts[cands[fn].key] += k
+			here[fn] += k
+		}
+		n += lw.n
+		return true
+	}
 	visitStmts = func(list []ast.Stmt) {
 		for _, st := range list {
 			if handle(st) {
@@ -308,6 +398,10 @@ func inlineFile(p *packages.Package, f *ast.File, src []byte, uniq *int, counts 
 			// descend
 			ast.Inspect(st, func(nd ast.Node) bool {
 				switch x := nd.(type) {
+				case *ast.IfStmt:
+					if els, isIf := x.Else.(*ast.IfStmt); isIf && nd == st {
+						visitStmts([]ast.Stmt{els})
+					}
 				case *ast.BlockStmt:
 					if nd != st {
 						visitStmts(x.List)
@@ -327,6 +421,28 @@ func inlineFile(p *packages.Package, f *ast.File, src []byte, uniq *int, counts 
 			})
 		}
 	}
+	ast.Inspect(f, func(nd ast.Node) bool {
+		var body *ast.BlockStmt
+		hasDefer := false
+		switch x := nd.(type) {
+		case *ast.FuncDecl:
+			body = x.Body
+		case *ast.FuncLit:
+			body = x.Body
+		}
+		if body != nil && len(body.List) > 0 {
+			// the caller itself must not have defers registered (their order relative to the helper's would change)
+			for _, st := range body.List {
+				if _, isD := st.(*ast.DeferStmt); isD {
+					hasDefer = true
+				}
+			}
+			if !hasDefer {
+				tailStmts[body.List[len(body.List)-1]] = true
+			}
+		}
+		return true
+	})
 	for _, d := range f.Decls {
 		if fd, ok := d.(*ast.FuncDecl); ok && fd.Body != nil {
 			visitStmts(fd.Body.List)
@@ -425,7 +541,9 @@ func inlinableCall(st ast.Stmt) (*ast.CallExpr, string) {
 	return nil, ""
 }
 
-func expandCall(p *packages.Package, f *ast.File, src []byte, st ast.Stmt, form string, call *ast.CallExpr, c *candidate, id int) (string, bool) {
+// expandCore: the statements that evaluate one helper call in place (receiver/argument bindings, result variables, the
+// body wrapped in a switch with returns turned into assignments + labelled breaks) and the names of the result variables.
+func expandCore(p *packages.Package, src []byte, call *ast.CallExpr, c *candidate, id int, resumeLine int) (string, []string, bool) {
 	fset := p.Fset
 	off := func(pos token.Pos) int { return fset.Position(pos).Offset }
 	text := func(n ast.Node) string { return string(src[off(n.Pos()):off(n.End())]) }
@@ -440,12 +558,12 @@ func expandCall(p *packages.Package, f *ast.File, src []byte, st ast.Stmt, form 
 	if fd.Recv != nil && len(fd.Recv.List) == 1 {
 		sel, ok := call.Fun.(*ast.SelectorExpr)
 		if !ok {
-			return "", false
+			return "", nil, false
 		}
 		// receiver expression must have exactly the declared receiver type (no implicit & or *)
 		rt := p.TypesInfo.TypeOf(sel.X)
 		if rt == nil || !types.Identical(rt, sig.Recv().Type()) {
-			return "", false
+			return "", nil, false
 		}
 		name := "recv" + suffix
 		var robj types.Object
@@ -473,7 +591,7 @@ func expandCall(p *packages.Package, f *ast.File, src []byte, st ast.Stmt, form 
 		}
 		for _, nm := range names {
 			if ai >= len(call.Args) {
-				return "", false
+				return "", nil, false
 			}
 			name := fmt.Sprintf("p%d%s", ai, suffix)
 			var pobj types.Object
@@ -494,7 +612,7 @@ func expandCall(p *packages.Package, f *ast.File, src []byte, st ast.Stmt, form 
 		}
 	}
 	if ai != len(call.Args) {
-		return "", false
+		return "", nil, false
 	}
 	// results
 	var resNames []string
@@ -539,22 +657,35 @@ func expandCall(p *packages.Package, f *ast.File, src []byte, st ast.Stmt, form 
 					return false // returns inside literals belong to the literal
 				}
 			case *ast.ReturnStmt:
+				unlock := ""
+				if c.deferStmt != nil {
+					unlock = c.unlockText + "; "
+				}
 				switch {
 				case len(y.Results) == 0:
-					edits = append(edits, edit{off(y.Pos()), off(y.Pos()) + len("return"), "break " + label})
+					edits = append(edits, edit{off(y.Pos()), off(y.Pos()) + len("return"), "{ " + unlock + "break " + label + " }"})
 				case len(resNames) == 0:
 					okRet = false
 				default:
 					edits = append(edits, edit{off(y.Pos()), off(y.Pos()) + len("return"), "{ " + strings.Join(resNames, ", ") + " ="})
-					edits = append(edits, edit{off(y.End()), off(y.End()), "; break " + label + " }"})
+					edits = append(edits, edit{off(y.End()), off(y.End()), "; " + unlock + "break " + label + " }"})
 				}
 			}
 			return true
 		})
 	}
 	walk(fd.Body, false)
+	if c.deferStmt != nil {
+		edits = append(edits, edit{off(c.deferStmt.Pos()), off(c.deferStmt.End()), ""})
+		// a body that can fall off its end (no result) must unlock there too
+		if len(resNames) == 0 {
+			if _, endsInReturn := fd.Body.List[len(fd.Body.List)-1].(*ast.ReturnStmt); !endsInReturn {
+				edits = append(edits, edit{off(fd.Body.Rbrace), off(fd.Body.Rbrace), "\n" + c.unlockText + "\n"})
+			}
+		}
+	}
 	if !okRet {
-		return "", false
+		return "", nil, false
 	}
 	// restrict edits to the body and rebase
 	var be []edit
@@ -566,23 +697,35 @@ func expandCall(p *packages.Package, f *ast.File, src []byte, st ast.Stmt, form 
 	body := string(applyEdits(append([]byte(nil), src[bodyStart:bodyEnd]...), be))
 	file := fset.Position(fd.Pos()).Filename
 	bodyLine := fset.Position(fd.Body.Lbrace).Line
+	var b strings.Builder
+	for _, l := range pre {
+		b.WriteString(l + "\n")
+	}
+	if strings.Contains(body, "break "+label) {
+		b.WriteString(label + ":\n")
+	}
+	b.WriteString("switch {\ndefault:\n")
+	fmt.Fprintf(&b, "//line %s:%d\n", file, bodyLine)
+	b.WriteString(body)
+	fmt.Fprintf(&b, "\n//line %s:%d\n", file, resumeLine)
+	b.WriteString("}\n")
+	return b.String(), resNames, true
+}
+
+func expandCall(p *packages.Package, f *ast.File, src []byte, st ast.Stmt, form string, call *ast.CallExpr, c *candidate, id int) (string, bool) {
+	fset := p.Fset
+	off := func(pos token.Pos) int { return fset.Position(pos).Offset }
+	fd := c.decl
 	stLine := fset.Position(st.Pos()).Line
+	coreText, resNames, ok := expandCore(p, src, call, c, id, stLine)
+	if !ok {
+		return "", false
+	}
+	file := fset.Position(fd.Pos()).Filename
 	endLine := fset.Position(st.End()).Line
 	var b strings.Builder
 	results := strings.Join(resNames, ", ")
-	emitCore := func() {
-		for _, l := range pre {
-			b.WriteString(l + "\n")
-		}
-		if strings.Contains(body, "break "+label) {
-			b.WriteString(label + ":\n")
-		}
-		b.WriteString("switch {\ndefault:\n")
-		fmt.Fprintf(&b, "//line %s:%d\n", file, bodyLine)
-		b.WriteString(body)
-		fmt.Fprintf(&b, "\n//line %s:%d\n", file, stLine)
-		b.WriteString("}\n")
-	}
+	emitCore := func() { b.WriteString(coreText) }
 	replaceCall := func(s ast.Stmt) (string, bool) {
 		switch x := s.(type) {
 		case *ast.ExprStmt:
@@ -680,4 +823,297 @@ func shadowedIn(info *types.Info, body *ast.BlockStmt, name string) bool {
 		return true
 	})
 	return found
+}
+
+// ---- helper calls in expression position ----
+
+type lowerer struct {
+	p           *packages.Package
+	src         []byte
+	cands       map[*types.Func]*candidate
+	usedAsValue map[*types.Func]bool
+	uniq        *int
+	resume      int
+	n           int
+	hit         map[*types.Func]int
+}
+
+func (lw *lowerer) off(pos token.Pos) int { return lw.p.Fset.Position(pos).Offset }
+func (lw *lowerer) text(n ast.Node) string {
+	return string(lw.src[lw.off(n.Pos()):lw.off(n.End())])
+}
+
+func (lw *lowerer) isHelperCall(ce *ast.CallExpr) *candidate {
+	fn := calleeFunc(lw.p.TypesInfo, ce)
+	c := lw.cands[fn]
+	if c == nil || lw.usedAsValue[fn] || ce.Ellipsis.IsValid() || c.tailOnly {
+		return nil
+	}
+	return c
+}
+
+// pureCall: a call whose evaluation order relative to a hoisted helper does not matter (builtins, conversions, getters).
+func (lw *lowerer) pureCall(ce *ast.CallExpr) bool {
+	if tv, ok := lw.p.TypesInfo.Types[ce.Fun]; ok && tv.IsType() {
+		return true // conversion
+	}
+	switch f := ce.Fun.(type) {
+	case *ast.Ident:
+		if _, isB := lw.p.TypesInfo.Uses[f].(*types.Builtin); isB {
+			return f.Name == "len" || f.Name == "cap"
+		}
+	case *ast.SelectorExpr:
+		return strings.HasPrefix(f.Sel.Name, "Get") || strings.HasPrefix(f.Sel.Name, "get")
+	}
+	return false
+}
+
+func containsHelper(lw *lowerer, e ast.Node) bool {
+	found := false
+	ast.Inspect(e, func(n ast.Node) bool {
+		if _, isLit := n.(*ast.FuncLit); isLit {
+			return false
+		}
+		if ce, ok := n.(*ast.CallExpr); ok && lw.isHelperCall(ce) != nil {
+			found = true
+		}
+		return true
+	})
+	return found
+}
+
+// leaf: hoists the helper calls of an expression without && / || at its top. Returns (prelude, rewritten expression).
+func (lw *lowerer) leaf(e ast.Expr) (string, string, bool) {
+	var helpers []*ast.CallExpr
+	var others []*ast.CallExpr
+	bad := false
+	ast.Inspect(e, func(n ast.Node) bool {
+		if _, isLit := n.(*ast.FuncLit); isLit {
+			return false
+		}
+		if ce, ok := n.(*ast.CallExpr); ok {
+			if lw.isHelperCall(ce) != nil {
+				helpers = append(helpers, ce)
+				for _, a := range ce.Args {
+					if containsHelper(lw, a) {
+						bad = true // nested helper calls: leave alone
+					}
+				}
+				if sel, isSel := ce.Fun.(*ast.SelectorExpr); isSel && containsHelper(lw, sel.X) {
+					bad = true
+				}
+				return true
+			}
+			others = append(others, ce)
+		}
+		return true
+	})
+	if len(helpers) == 0 {
+		return "", lw.text(e), true
+	}
+	if bad {
+		return "", "", false
+	}
+	// every non-pure call that is evaluated before a helper call (starts before it and does not contain it) forbids hoisting
+	for _, h := range helpers {
+		for _, o := range others {
+			if o.Pos() < h.Pos() && !(o.Pos() <= h.Pos() && h.End() <= o.End()) && !lw.pureCall(o) {
+				return "", "", false
+			}
+			// an impure call whose ARGUMENTS are evaluated before the helper (helper is a later argument of it)
+			if o.Pos() <= h.Pos() && h.End() <= o.End() {
+				for _, a := range o.Args {
+					if a.End() <= h.Pos() {
+						impure := false
+						ast.Inspect(a, func(n ast.Node) bool {
+							if ce, ok := n.(*ast.CallExpr); ok && lw.isHelperCall(ce) == nil && !lw.pureCall(ce) {
+								impure = true
+							}
+							return true
+						})
+						if impure {
+							return "", "", false
+						}
+					}
+				}
+			}
+		}
+	}
+	var pre strings.Builder
+	var edits []edit
+	base := lw.off(e.Pos())
+	for _, h := range helpers {
+		c := lw.isHelperCall(h)
+		if c.obj.Type().(*types.Signature).Results().Len() != 1 {
+			return "", "", false
+		}
+		*lw.uniq++
+		core, res, ok := expandCore(lw.p, lw.src, h, c, *lw.uniq, lw.resume)
+		if !ok || len(res) != 1 {
+			return "", "", false
+		}
+		pre.WriteString(core)
+		edits = append(edits, edit{lw.off(h.Pos()) - base, lw.off(h.End()) - base, res[0]})
+		lw.n++
+		if lw.hit == nil {
+			lw.hit = map[*types.Func]int{}
+		}
+		lw.hit[c.obj]++
+	}
+	out := applyEdits(append([]byte(nil), lw.src[base:lw.off(e.End())]...), edits)
+	return pre.String(), string(out), true
+}
+
+// expr lowers a (boolean) expression, preserving short-circuit evaluation.
+func (lw *lowerer) expr(e ast.Expr) (string, string, bool) {
+	if !containsHelper(lw, e) {
+		return "", lw.text(e), true
+	}
+	switch x := e.(type) {
+	case *ast.ParenExpr:
+		pre, r, ok := lw.expr(x.X)
+		return pre, "(" + r + ")", ok
+	case *ast.UnaryExpr:
+		if x.Op == token.NOT {
+			pre, r, ok := lw.expr(x.X)
+			return pre, "!(" + r + ")", ok
+		}
+	case *ast.BinaryExpr:
+		if x.Op == token.LAND || x.Op == token.LOR {
+			preL, rL, ok1 := lw.expr(x.X)
+			preR, rR, ok2 := lw.expr(x.Y)
+			if !ok1 || !ok2 {
+				return "", "", false
+			}
+			if preR == "" {
+				return preL, "(" + rL + ") " + x.Op.String() + " (" + rR + ")", true
+			}
+			*lw.uniq++
+			t := fmt.Sprintf("c__inl%d", *lw.uniq)
+			var b strings.Builder
+			b.WriteString(preL)
+			fmt.Fprintf(&b, "var %s bool\n", t)
+			if x.Op == token.LAND {
+				fmt.Fprintf(&b, "if %s {\n%s%s = %s\n}\n", rL, preR, t, rR)
+			} else {
+				fmt.Fprintf(&b, "if %s {\n%s = true\n} else {\n%s%s = %s\n}\n", rL, t, preR, t, rR)
+			}
+			return b.String(), t, true
+		}
+	}
+	return lw.leaf(e)
+}
+
+// stmt rewrites one statement whose expressions contain helper calls; ok=false if the form is not supported.
+func (lw *lowerer) stmt(st ast.Stmt) (string, bool) {
+	switch x := st.(type) {
+	case *ast.IfStmt:
+		if x.Init != nil && containsHelper(lw, x.Init) {
+			return "", false
+		}
+		if !containsHelper(lw, x.Cond) {
+			return "", false
+		}
+		pre, r, ok := lw.expr(x.Cond)
+		if !ok {
+			return "", false
+		}
+		var b strings.Builder
+		b.WriteString("{\n")
+		if x.Init != nil {
+			b.WriteString(lw.text(x.Init) + "\n")
+		}
+		b.WriteString(pre)
+		b.WriteString("if " + r + " " + string(lw.src[lw.off(x.Body.Pos()):lw.off(x.End())]) + "\n}")
+		return b.String(), true
+	case *ast.ForStmt:
+		if x.Cond == nil || !containsHelper(lw, x.Cond) || (x.Init != nil && containsHelper(lw, x.Init)) || (x.Post != nil && containsHelper(lw, x.Post)) {
+			return "", false
+		}
+		pre, r, ok := lw.expr(x.Cond)
+		if !ok {
+			return "", false
+		}
+		var b strings.Builder
+		b.WriteString("{\n")
+		if x.Init != nil {
+			b.WriteString(lw.text(x.Init) + "\n")
+		}
+		b.WriteString("for ; ; ")
+		if x.Post != nil {
+			b.WriteString(lw.text(x.Post) + " ")
+		}
+		b.WriteString("{\n" + pre + "if !(" + r + ") {\nbreak\n}\n")
+		b.WriteString(string(lw.src[lw.off(x.Body.Lbrace)+1 : lw.off(x.Body.Rbrace)]))
+		b.WriteString("\n}\n}")
+		return b.String(), true
+	case *ast.ReturnStmt:
+		var pres, rs []string
+		for _, e := range x.Results {
+			pre, r, ok := lw.expr(e)
+			if !ok {
+				return "", false
+			}
+			pres = append(pres, pre)
+			rs = append(rs, r)
+		}
+		// a later result must not be hoisted in front of an earlier impure one: only allowed if all earlier results are call-free
+		for i := range x.Results {
+			if pres[i] != "" {
+				for j := 0; j < i; j++ {
+					impure := false
+					ast.Inspect(x.Results[j], func(n ast.Node) bool {
+						if ce, ok := n.(*ast.CallExpr); ok && lw.isHelperCall(ce) == nil && !lw.pureCall(ce) {
+							impure = true
+						}
+						return true
+					})
+					if impure {
+						return "", false
+					}
+				}
+			}
+		}
+		return strings.Join(pres, "") + "return " + strings.Join(rs, ", "), true
+	case *ast.AssignStmt:
+		if len(x.Rhs) != 1 || (x.Tok != token.ASSIGN && x.Tok != token.DEFINE) {
+			return "", false
+		}
+		for _, l := range x.Lhs {
+			if containsHelper(lw, l) {
+				return "", false
+			}
+			impure := false
+			ast.Inspect(l, func(n ast.Node) bool {
+				if _, ok := n.(*ast.CallExpr); ok {
+					impure = true
+				}
+				return true
+			})
+			if impure {
+				return "", false
+			}
+		}
+		pre, r, ok := lw.expr(x.Rhs[0])
+		if !ok {
+			return "", false
+		}
+		return pre + string(lw.src[lw.off(x.Pos()):lw.off(x.Rhs[0].Pos())]) + r, true
+	case *ast.ExprStmt:
+		pre, r, ok := lw.leaf(x.X)
+		if !ok {
+			return "", false
+		}
+		return pre + r, true
+	case *ast.RangeStmt:
+		if !containsHelper(lw, x.X) {
+			return "", false
+		}
+		pre, r, ok := lw.leaf(x.X)
+		if !ok {
+			return "", false
+		}
+		return "{\n" + pre + string(lw.src[lw.off(x.Pos()):lw.off(x.X.Pos())]) + r + " " + string(lw.src[lw.off(x.Body.Pos()):lw.off(x.End())]) + "\n}", true
+	}
+	return "", false
 }
